@@ -227,7 +227,7 @@ CHECKS["C18"] = dict(
 )
 
 CHECKS["C14"] = dict(
-    stages=[stage("C14", quick=dict(cases=480, size=100, shards=16, timeout=1500), thorough=dict(cases=15000, size=100, shards=16), case_timeout=900)],
+    stages=[stage("C14", quick=dict(cases=1440, size=100, shards=16, timeout=1500), thorough=dict(cases=45000, size=100, shards=16), case_timeout=900)],
     technique="rapidcheck property-based testing: generated connected graphs through doHOLA, validity predicates over the returned drawing",
     level_text="Generated connected simple graphs (trees, cycles, tree+chords, dense core with hanging trees, hubs; 2-30 nodes quick, "
                "2-60 thorough; node sizes 10-100; random and coincident initial positions) built through TGLF or through the Graph API, with "
@@ -378,6 +378,7 @@ CHECKS["C15"] = dict(
             stage("ROUTE", props=["C03.", "C04.", "C05."], replay_only=True), stage("C10", props=["C10."], replay_only=True),
             stage("C11", props=["C11."], replay_only=True), stage("C06", props=["C06."], replay_only=True),
             stage("C13", props=["C13."], replay_only=True), stage("C19", props=["C19."], replay_only=True),
+            stage("C14", props=["C14."], replay_only=True),
             stage("C15reg", props=["C15."], replay_only=True, env={"ASAN_OPTIONS": "exitcode=70:detect_leaks=1:allocator_may_return_null=1"})],
     engine="libFuzzer + rapidcheck replays",
     technique="coverage-guided fuzzing (libFuzzer, structure-aware decoding of bytes into legal API histories) under AddressSanitizer, UBSan, "
